@@ -360,25 +360,9 @@ type c17Case struct {
 	Validated  []string `json:"validated_addresses,omitempty"`
 	WitFresh   []string `json:"checkwitness_true_never_validated,omitempty"`
 	WitValid   []string `json:"checkwitness_true_validated,omitempty"`
-	// canonical scripts only: the accounts of the signature sets as the harness derives them from the bytes
-	// (hashes of its own canonical scripts, c1617SetAddress)
-	Expect []string `json:"expected_from_bytes,omitempty"`
 }
 
 func c17SetOf(as []common.Address) []string {
-	m := map[string]bool{}
-	for _, a := range as {
-		m[c1617Hex(a[:])] = true
-	}
-	out := make([]string, 0, len(m))
-	for k := range m {
-		out = append(out, k)
-	}
-	sort.Strings(out)
-	return out
-}
-
-func c17HexSet(as [][20]byte) []string {
 	m := map[string]bool{}
 	for _, a := range as {
 		m[c1617Hex(a[:])] = true
@@ -448,10 +432,6 @@ func c17Eval(r *vh.Run, c *c17Case) string {
 			return
 		}
 		switch {
-		case c.Expect != nil && !c17Eq(c.Validated, c.Expect):
-			// every script of the transaction is in canonical form: its account is the hash of that script, whatever
-			// this process derived before
-			outcome = "validated-not-the-script-accounts"
 		case !c17Eq(c.Validated, viaGetter):
 			outcome = "validated-getter-differs"
 		case !c17Eq(c.Fresh, c.Validated):
@@ -500,8 +480,8 @@ func c17Flush(r *vh.Run) {
 	for _, v := range c17Pending {
 		c := v.Case
 		r.Violationf(v.Key, c,
-			"%s: one transaction, two witness sets: never-validated decode reports %v (CheckWitness true for %v), validated object reports %v (CheckWitness true for %v); deviations of the script from canonical form: %v; accounts of the scripts derived from the bytes by the harness (canonical scripts only): %v",
-			c.Desc, c.Fresh, c.WitFresh, c.Validated, c.WitValid, c.Deviations, c.Expect)
+			"%s: one transaction, two witness sets: never-validated decode reports %v (CheckWitness true for %v), validated object reports %v (CheckWitness true for %v); deviations of the script from canonical form: %v",
+			c.Desc, c.Fresh, c.WitFresh, c.Validated, c.WitValid, c.Deviations)
 	}
 	c17Pending = nil
 }
@@ -561,13 +541,6 @@ func TestVerif_C17(t *testing.T) {
 		c := &c17Case{Desc: tc.Desc, Class: class, Deviations: all, Raw: c1617Hex(tc.build())}
 		for _, a := range tc.candidates() {
 			c.Candidates = append(c.Candidates, c1617Hex(a[:]))
-		}
-		if class == "canonical" {
-			var exp [][20]byte
-			for _, st := range tc.Sets {
-				exp = append(exp, st.account())
-			}
-			c.Expect = c17HexSet(exp)
 		}
 		out := c17Eval(r, c)
 		r.Class(out + ":" + class)
